@@ -11,7 +11,7 @@ def run(c):
               "inside the writer's Engine.Commit call that follows the shutdown request) with MaxChunkSize 60..1100 (rotation every few events) or, every 12th case "
               "(10th in thorough), 20000..2^20 with 1-70 KB payloads (crc records every 64 KiB, read buffer growth); then "
               "read-only replays of the final files: from 0, from every commit with its meta / without / with an older meta, "
-              "from event boundaries, malformed (wrong engine offset, meta ahead of start, corrupted meta, unaligned start), "
+              "from the deepest commit lying more than 64 KiB inside its chunk (with and without meta), from event boundaries, malformed (wrong engine offset, meta ahead of start, corrupted meta, unaligned start), "
               "truncations of the last file (random, around event boundaries, inside the file header, last bytes), of an inner "
               "file, a deleted last file, single bit flips (biased to bytes in front of a crc record); thorough: half of the "
               "small cases enumerate EVERY truncation offset and EVERY single bit flip of the last two files. "
@@ -41,7 +41,7 @@ def run(c):
     ]
     c.prove("SH.Props.C18", extra_files=["SH/Model/Binlog.lean", "SH/Lemmas/Binlog.lean", "SH/Lemmas/BinlogRot.lean",
                                         "SH/Lemmas/BinlogSim.lean", "SH/Lemmas/BinlogCut.lean", "SH/Lemmas/BinlogWriter.lean",
-                                        "SH/Lemmas/BinlogAll.lean", "SH/Lemmas/BinlogWB.lean"])
+                                        "SH/Lemmas/BinlogAll.lean", "SH/Lemmas/BinlogWB.lean", "SH/Lemmas/BinlogMulti.lean"])
     drv = c.driver(DRIVER)
     binary = c.go_build(HARNESS)
     if binary and drv:
@@ -68,35 +68,36 @@ META = {
     "technique": ("Lean 4 theorems over an executable byte-level model of putLevToBuffer / writer loop / reader "
                   "(induction over event lists, truncation points and writer schedules) + differential correspondence with the "
                   "real fsbinlog on a memory file system + direct replay/commit/damage oracle"),
-    "text": ("Kernel-checked, for all inputs: (readAll_from_commit / readAll_resume) readAllFromPosition END TO END on the files the "
-             "writer lays out for appends pre ++ post, called with the offset and snapshot meta of a commit issued after pre: directory "
-             "scan and sort, getBinlogIndexByPosition choosing the chunk, seek with checksum verification against the meta, replay of "
-             "the rest of that chunk and all later chunks = ok, exactly the events of post, in order, at the offsets Append returned, "
-             "through any number of ROTATE_TO/ROTATE_FROM boundaries and crc records at any interval; (readAll_from_start) the same "
-             "from offset 0 without meta, LevStart and tag skipped; (iter_files_layout, apNext_buff) one writer-loop iteration leaves "
-             "on disk byte for byte the chunks of that layout, and the layout is what putLevToBuffer appends; (truncate_prefix, "
-             "truncate_tail_files) a chunk cut at ANY point behind its ROTATE_FROM header - inside an event, a crc record or its "
-             "ROTATE_TO - with all later files removed replays without error exactly the complete events of what is left, a prefix, "
-             "never a partial event; the one excluded shape, a cut inside the 36-byte ROTATE_FROM header, is the known finding "
-             "(decide witnesses); (crc_record_checked) after ANY bytes the running checksum is upd crc0 (bytes read) and a crc "
-             "record is rejected iff the stored value differs; (commit_monotone, commit_le_fsynced) commit offsets never decrease "
-             "and never exceed the bytes in the files covered by an fsync, for every schedule; "
-             "(append_after_stop_refused_or_durable) no acknowledged append is lost around shutdown; (putLev_no_panic) a writer "
-             "restarted inside the first chunk never takes the out-of-range hashBuff2 slice. The model is tied to the code by "
-             "replaying generated histories (sessions, rotations, crc records, resumes, shutdown windows, truncations, bit flips) "
-             "on the real package and on the compiled model and diffing every observation; the direct oracle checks replay/resume "
-             "equality, acknowledged appends present after shutdown, commit <= fsynced bytes (gofs dirty pages), truncation and "
-             "bit-flip outcomes on the real code."),
+    "text": ("Kernel-checked, for all inputs: (readAll_resume_sessions, via readAll_reduce and sessions_good) after ANY history of "
+             "writer sessions - fresh binlog, batches of appends with any number of rotations, restarts with the writer state "
+             "rebuilt by wsInit - readAllFromPosition called at the offset of any commit, with that commit's snapshot meta or "
+             "WITHOUT meta: directory scan and sort, getBinlogIndexByPosition, seek (checksum verified against the meta or "
+             "recomputed), replay of the remaining chunks = ok, exactly the later events, in order, at the offsets Append "
+             "returned; (readAll_from_start) the same from offset 0, LevStart and tag skipped; (readAll_truncated, "
+             "truncate_tail_files, truncate_prefix) a chunk cut at ANY point behind its ROTATE_FROM header - inside an event, a "
+             "crc record or its ROTATE_TO - with all later files removed, read through the whole readAll path: no error, exactly "
+             "the complete events, a prefix, never a partial event; the single excluded shape, a cut inside a 36-byte ROTATE_FROM "
+             "header, is the known finding (decide witnesses); (iter_files_layout, apNext_buff) one writer-loop iteration leaves "
+             "on disk byte for byte the chunks of that layout; (crc_record_checked) a crc record is rejected iff the stored "
+             "value differs from upd crc0 (bytes read); (commit_monotone, commit_le_fsynced, commit_covered_per_file) for every "
+             "schedule commit offsets never decrease and every committed offset is covered, file by file - closed chunks with "
+             "their ROTATE_TO included - by an fsync of that file (the seeded rotate-syncs-the-wrong-fd variant violates it, "
+             "decide witness); (append_after_stop_refused_or_durable) no acknowledged append is lost around shutdown; "
+             "(putLev_no_panic) a restarted writer never takes the out-of-range hashBuff2 slice. The model is tied to the code by "
+             "replaying generated histories (sessions, rotations, crc records, resumes incl. positions deeper than 64 KiB into a "
+             "chunk, shutdown windows, truncations, bit flips) on the real package and on the compiled model and diffing every "
+             "observation; the direct oracle checks replay/resume equality, acknowledged appends present after shutdown, commit "
+             "<= fsynced bytes at every commit incl. those right after a rotation (gofs dirty pages), truncation and bit-flip "
+             "outcomes on the real code."),
     "note": ("Trusted: Lean kernel, the correspondence on generated histories (quick 200, thorough 400 histories incl. ~160 with "
              "every truncation offset and every single-bit flip of the last two chunks), gofs memory fs as the file system, "
-             "crc32/md5 as parameters. Remaining partial points: readAll_from_commit is stated for a binlog written in one session "
-             "(start state behind the 44-byte head); for a binlog continued by a restarted writer the generic readAll_resume "
-             "applies once the accounting invariant Acc is shown for wsInit (not done); the truncation theorems are stated behind "
-             "the seek (finish/readFiles), not through readAll's scan; resume without meta is proved for the seek step only "
-             "(seek_nometa). The md5 chain is NOT verified by the Go reader (decide witness), so 'mismatching prev-hash is rejected' "
-             "is false of the code and not part of the property. Known finding truncated-file-header: a last chunk cut inside its "
-             "36-byte ROTATE_FROM header (crash inside rotate()) makes the whole binlog unreadable (scan error; index panic for 1-3 "
-             "bytes); reproduced by the model (decide witnesses) and the single exclusion of the truncation theorems. Defect found "
-             "and fixed in round 1 (sig=append-panic, committed in /repo); the model describes the fixed code."),
+             "crc32/md5 as parameters. Remaining partial points: Sessions.restart takes over position and checksum of the previous "
+             "writer state (what readAll_resume_sessions proves the replay returns) - the composition with the RA record's other "
+             "fields is not a single statement; bit flips are proved in reduction form only (crc_record_checked), no end-to-end "
+             "readAll statement for a flipped file list. The md5 chain is NOT verified by the Go reader (decide witness). Known "
+             "finding truncated-file-header: a last chunk cut inside its 36-byte ROTATE_FROM header (crash inside rotate()) makes "
+             "the whole binlog unreadable (scan error; index panic for 1-3 bytes); reproduced by the model (decide witnesses) and "
+             "the single exclusion of the truncation theorems. Defect found and fixed in round 1 (sig=append-panic, committed in "
+             "/repo); the model describes the fixed code."),
     "design_ref": "DESIGN.md §6 C18",
 }
